@@ -193,6 +193,10 @@ func shortClass(s string) string {
 
 func (h *handler) Item(x *certs.ItemCtx) {
 	a := x.A
+	if x.U.IsBundle() {
+		h.bundleItem(x)
+		return
+	}
 	var c *x509.Certificate
 	var err error
 	if p, msg, site := ev.Try(func() { c, err = x509.ParseCertificate(x.DER) }); p {
@@ -226,30 +230,45 @@ func (h *handler) exercise(r *itemRun, c *x509.Certificate) {
 		parents = append(append([]parentCert(nil), parents...), extra...)
 	}
 
-	// --- JSON twice (before anything else touched the certificate)
+	// --- JSON twice (before anything else touched the certificate); tieReps times when names tie (ties.go)
+	reps := 2
+	if tieCarrying(c) {
+		reps = tieReps
+		a.Outcome("names:tie-carrying (serialised and collected 16 times per stage)", 1)
+	}
 	jsonTwice := func(stage string) []byte {
-		var j1, j2 []byte
-		var e1, e2 error
-		ok := r.try(opJSON, stage+" first", func() { j1, e1 = json.Marshal(c) })
-		if !ok {
+		var j1 []byte
+		var e1 error
+		if !r.try(opJSON, stage+" first", func() { j1, e1 = json.Marshal(c) }) {
 			return nil
 		}
-		if !r.try(opJSON, stage+" second", func() { j2, e2 = json.Marshal(c) }) {
+		for k := 2; k <= reps; k++ {
+			var j2 []byte
+			var e2 error
+			if !r.try(opJSON, fmt.Sprintf("%s serialisation %d", stage, k), func() { j2, e2 = json.Marshal(c) }) {
+				return nil
+			}
+			r.evals++
+			switch {
+			case (e1 == nil) != (e2 == nil) || (e1 != nil && e1.Error() != e2.Error()):
+				x.Violation("json.Marshal(cert) twice: different results (error vs. output)", opTable[opJSON], fmt.Sprintf("%s: first err=%v, serialisation %d err=%v", stage, e1, k, e2))
+				return nil
+			case e1 != nil:
+				if k == reps {
+					a.Outcome("json:error:"+shortClass(e1.Error()), 1)
+				}
+			case !bytes.Equal(j1, j2):
+				x.Violation("json.Marshal(cert) twice: outputs differ"+diffClass(j1, j2), opTable[opJSON], fmt.Sprintf("%s, serialisation 1 vs %d: %s", stage, k, firstDiff(j1, j2)))
+				a.Outcome("json:NONDETERMINISTIC", 1)
+				return j1
+			}
+		}
+		if e1 != nil {
 			return nil
 		}
-		r.evals++
-		switch {
-		case (e1 == nil) != (e2 == nil) || (e1 != nil && e1.Error() != e2.Error()):
-			x.Violation("json.Marshal(cert) twice: different results (error vs. output)", opTable[opJSON], fmt.Sprintf("%s: first err=%v second err=%v", stage, e1, e2))
-		case e1 != nil:
-			a.Outcome("json:error:"+shortClass(e1.Error()), 1)
-			return nil
-		case !bytes.Equal(j1, j2):
-			x.Violation("json.Marshal(cert) twice: outputs differ"+diffClass(j1, j2), opTable[opJSON], stage+": "+firstDiff(j1, j2))
-			a.Outcome("json:NONDETERMINISTIC", 1)
-		case !json.Valid(j1):
+		if !json.Valid(j1) {
 			x.Violation("json.Marshal(cert): output is not valid JSON", opTable[opJSON], stage)
-		default:
+		} else {
 			a.Outcome("json:ok-identical", 1)
 		}
 		return j1
@@ -345,9 +364,12 @@ func (h *handler) exercise(r *itemRun, c *x509.Certificate) {
 	// --- name collection and other accessors
 	r.try(opNameAcc, "CollectAllNames", func() {
 		n1 := c.CollectAllNames()
-		n2 := c.CollectAllNames()
-		if strings.Join(n1, "\x00") != strings.Join(n2, "\x00") {
-			x.Violation("CollectAllNames twice: results differ", opTable[opNameAcc], fmt.Sprintf("%q vs %q", n1, n2))
+		for k := 2; k <= reps; k++ {
+			n2 := c.CollectAllNames()
+			if strings.Join(n1, "\x00") != strings.Join(n2, "\x00") || len(n1) != len(n2) {
+				x.Violation("CollectAllNames twice: results differ", opTable[opNameAcc], fmt.Sprintf("call 1 vs %d: %q vs %q", k, n1, n2))
+				break
+			}
 		}
 		if len(n1) > 1 {
 			a.Outcome("names:several", 1)
